@@ -19,7 +19,7 @@ from dsim import world as W
 from dsim.canon import digest, jdump
 
 PROPERTY = "C18"
-QUICK_RUNS = 8000
+QUICK_RUNS = 6000
 THOROUGH_RUNS = 150000
 QUICK_BUDGET = 90
 RULE = ("scenario = 2-3 collision worlds (same base URI, same $ref strings, same remote URLs, same regexes, same "
@@ -85,7 +85,13 @@ def collide(rng, node, p=0.7):
             out[k] = rng.choice([t for t in W.PYTYPES if t != v])
         elif k == "format" and hit and rng.random() < 0.3:
             out[k] = rng.choice(["sim-evenlen", "sim-lower", "sim-noz"])
-        elif k in ("$ref", "id", "$id", "pattern"):
+        elif k == "pattern":
+            # mostly the same regular expression (a cache keyed by the regex string must not be confused),
+            # sometimes a different one (two validators racing on one shared slot must not be confused either)
+            out[k] = rng.choice([p2 for p2 in W.PATTERNS if p2 != v]) if rng.random() < 0.4 else v
+        elif k == "patternProperties" and isinstance(v, dict) and rng.random() < 0.4:
+            out[k] = dict((rng.choice(W.PP_PATTERNS), collide(rng, sub, p)) for sub in v.values())
+        elif k in ("$ref", "id", "$id"):
             out[k] = v
         else:
             out[k] = collide(rng, v, p)
@@ -115,7 +121,8 @@ def generate(rng, tier="quick"):
     n = rng.choice([2, 2, 2, 3])
     base = W.gen_world(rng, ndefs=rng.randint(2, 7), ref_rate=rng.choice([0.4, 0.55, 0.7]),
                        nested_id_rate=rng.choice([0.15, 0.3, 0.5]), unresolvable_rate=rng.choice([0.0, 0.0, 0.05]),
-                       ninstances=rng.randint(2, 4), inst_depth=rng.choice([3, 3, 4]))
+                       ninstances=rng.randint(2, 4), inst_depth=rng.choice([3, 3, 4]),
+                       regex_boost=rng.random() < 0.5)
     worlds = [base]
     windex = [0]
     shared = []
@@ -166,9 +173,31 @@ def generate(rng, tier="quick"):
             to = "gc" if rng.random() < 0.12 else rng.randrange(n)
             pts.append([round(rng.random(), 6), to])
         pts.sort(key=lambda p: p[0])
-        schedule = {"mode": "preempt", "fractions": pts, "first": rng.randrange(n), "quantum": quantum}
+        # change points addressed by SOURCE LINE (uniform over the distinct lines a thread executes, then over
+        # the occurrences of that line): rarely executed lines - e.g. the two stores of a shared cache slot -
+        # are then as likely to be pre-empted as the lines of hot loops
+        spts = []
+        for _ in range(rng.choice([0, 1, 2, 4, 6, 8])):
+            th = rng.randrange(n)
+            spts.append([th, round(rng.random(), 6), round(rng.random(), 6),
+                         rng.choice([t for t in range(n) if t != th]), rng.random() < 0.5])
+        schedule = {"mode": "preempt", "fractions": pts, "first": rng.randrange(n), "quantum": quantum,
+                    "site_fractions": spts}
+    more = []
+    if mode == "preempt":
+        # further schedules for the SAME worlds and programs (the alone-runs are paid for once): single
+        # pre-emptions at a source line chosen uniformly over the distinct lines a thread executes
+        for _ in range(rng.choice([0, 2, 4, 8])):
+            th = rng.randrange(n)
+            sp = [[th, round(rng.random(), 6), round(rng.random(), 6), rng.choice([t for t in range(n) if t != th]),
+                   rng.random() < 0.5]]
+            if rng.random() < 0.3:
+                th2 = rng.randrange(n)
+                sp.append([th2, round(rng.random(), 6), round(rng.random(), 6),
+                           rng.choice([t for t in range(n) if t != th2]), rng.random() < 0.5])
+            more.append({"mode": "preempt", "fractions": [], "first": th, "quantum": 0, "site_fractions": sp})
     return {"property": PROPERTY, "worlds": worlds, "actors": actors, "schedule": schedule,
-            "requests": rng.random() < 0.3}
+            "more_schedules": more, "requests": rng.random() < 0.3}
 
 
 # --------------------------------------------------------------------------- execution (children)
@@ -300,6 +329,9 @@ class Preempt(object):
         self.threading = threading
         self.quantum = quantum      # >0: round-robin hand-over every `quantum` traced lines (time slicing)
         self.switches = 0
+        self.hist = None            # alone-runs: {(filename, lineno): count} of traced lines
+        self.site_watch = {}        # (thread, filename, lineno) -> [[occurrence, to], ...]
+        self.site_seen = {}
         self.blocked_events = 0
         self.blocked = set()        # threads the watchdog found blocked in a real lock; no baton for them until they move
         self.deadlock = False
@@ -334,6 +366,22 @@ class Preempt(object):
                 self.blocked.discard(me)    # I was blocked in a real lock while the baton moved on; I move again
                 self.wait_baton(me)
             self.step += 1
+            if self.hist is not None:
+                key = (frame.f_code.co_filename, frame.f_lineno)
+                self.hist[key] = self.hist.get(key, 0) + 1
+            if self.site_watch:
+                key = (me, frame.f_code.co_filename, frame.f_lineno)
+                w = self.site_watch.get(key)
+                if w is not None:
+                    n = self.site_seen.get(key, 0) + 1
+                    self.site_seen[key] = n
+                    for occ, to in w:
+                        if occ == n and to != me and not self.done[to] and to not in self.blocked:
+                            if self.on_switch:
+                                self.on_switch(me, to)
+                            self.trace.append([self.step, me, to, "%s:%d" % (key[1][len(self.pkg):], key[2])])
+                            self.handoff(me, to)
+                            break
             if self.pi < len(self.points) and self.step >= self.points[self.pi][0]:
                 _, to = self.points[self.pi]
                 self.pi += 1
@@ -443,13 +491,17 @@ def exec_alone(arg):
     actors = build_actors(one, router)
     st = Stepper(actors[0], spec["program"], scn["worlds"][0]["instances"])
     lines = 0
+    hist = {}
     if scn["schedule"]["mode"] == "preempt":
-        p = Preempt(1, [], pkg_prefix())
+        pkg = pkg_prefix()
+        p = Preempt(1, [], pkg)
+        p.hist = {}
         p.run([st.run_all])
         lines = p.step
+        hist = dict(("%s:%d" % (fn[len(pkg):], ln), c) for (fn, ln), c in p.hist.items())
     else:
         st.run_all()
-    return {"outcomes": st.outcomes, "lines": lines, "violations": st.violations}
+    return {"outcomes": st.outcomes, "lines": lines, "violations": st.violations, "hist": hist}
 
 
 def exec_inter(scn):
@@ -505,7 +557,11 @@ def exec_inter(scn):
         steps = len(trace)
     else:
         pts = sched.get("resolved") or []
-        p = Preempt(len(steppers), pts, pkg_prefix(), first=sched.get("first", 0), quantum=sched.get("quantum", 0))
+        pkg = pkg_prefix()
+        p = Preempt(len(steppers), pts, pkg, first=sched.get("first", 0), quantum=sched.get("quantum", 0))
+        for th, site, occ, to in sched.get("resolved_sites") or []:
+            fn, ln = site.rsplit(":", 1)
+            p.site_watch.setdefault((th, pkg + fn, int(ln)), []).append([occ, to])
 
         def on_switch(me, to):
             probe("preempt_switches")
@@ -554,16 +610,37 @@ def same_outcome(a, b):
     return jdump(a) == jdump(b)
 
 
-def run(scn, fork_call):
-    n = len(scn["actors"])
-    alone = [fork_call(exec_alone, {"scn": scn, "actor": i}) for i in range(n)]
-    sched = scn["schedule"]
+def resolve_schedule(sched, alone, n):
     if sched["mode"] == "preempt" and "resolved" not in sched:
         horizon = max(1, sum(a["lines"] for a in alone))
         sched["horizon"] = horizon
         sched["resolved"] = [[max(1, int(f * horizon)), to] for f, to in sched["fractions"]]
         sched["resolved"].sort(key=lambda p: p[0])
+    if sched["mode"] == "preempt" and "resolved_sites" not in sched:
+        rs = []
+        for ent in sched.get("site_fractions", ()):
+            th, fs, fo, to = ent[:4]
+            rare = len(ent) > 4 and ent[4]
+            if th >= n:
+                continue
+            hist = alone[th].get("hist", {})
+            sites = sorted(hist)
+            if rare:
+                # lines this thread executes only a few times: where one-off initialisation and shared slots live
+                sites = [x for x in sites if hist[x] <= 4] or sites
+            if not sites:
+                continue
+            site = sites[min(len(sites) - 1, int(fs * len(sites)))]
+            occ = 1 + int(fo * hist[site])
+            rs.append([th, site, min(occ, hist[site]), to])
+        sched["resolved_sites"] = rs
+
+
+def run_schedule(scn, alone, fork_call):
+    """One interleaved child for scn["schedule"]; returns (violations, inter-result-or-None)."""
     from dsim.runner import HarnessError
+    n = len(scn["actors"])
+    sched = scn["schedule"]
     try:
         inter = fork_call(exec_inter, scn, timeout=INTER_TIMEOUT)
     except HarnessError as e:
@@ -576,11 +653,9 @@ def run(scn, fork_call):
             if "timed out" not in str(e2) or "then finished" in str(e2):
                 raise
         # every actor finished alone (in its own child); together they never finish: interference by blocking
-        return {"violations": [{"oracle": "interleaved-run-hung", "where": 0,
-                                "detail": {"timeout_s": INTER_TIMEOUT, "mode": sched["mode"],
-                                           "alone_ops": [len(a["outcomes"]) for a in alone]}}],
-                "nontrivial": False, "stats": {"hung_runs": 1}, "steps": 0,
-                "log_digest": digest(["hung", sched["mode"]]), "states": [], "sched": None}
+        return [{"oracle": "interleaved-run-hung", "where": 0,
+                 "detail": {"timeout_s": INTER_TIMEOUT, "mode": sched["mode"],
+                            "alone_ops": [len(a["outcomes"]) for a in alone]}}], None
     violations = list(inter["violations"])
     for i in range(n):
         exp, got = alone[i]["outcomes"], inter["outcomes"][i]
@@ -602,14 +677,46 @@ def run(scn, fork_call):
         for v in alone[i]["violations"]:
             alone_scope.add((i, v["oracle"], v["where"]))
     violations = [v for v in violations
-                  if not (v["oracle"] not in ("differs-from-alone", "program-did-not-complete")
+                  if not (v["oracle"] not in ("differs-from-alone", "program-did-not-complete", "interleaved-run-hung")
                           and (v.get("actor"), v["oracle"], v["where"]) in alone_scope)]
+    return violations, inter
+
+
+def run(scn, fork_call):
+    n = len(scn["actors"])
+    alone = [fork_call(exec_alone, {"scn": scn, "actor": i}) for i in range(n)]
+    schedules = [scn["schedule"]] + list(scn.get("more_schedules") or [])
+    stats = {}
+    states = []
+    steps = 0
+    digests = []
+    scheds = []
+    violations = []
+    for k, sched in enumerate(schedules):
+        resolve_schedule(sched, alone, n)
+        one = dict(scn, schedule=sched, more_schedules=[])
+        v, inter = run_schedule(one, alone, fork_call)
+        stats["schedules_executed"] = stats.get("schedules_executed", 0) + 1
+        if inter is not None:
+            for name, c in inter["stats"].items():
+                stats[name] = stats.get(name, 0) + c
+            states.extend(inter["states"])
+            steps += inter["steps"]
+            digests.append([inter["outcomes"], inter["sched"]])
+            scheds.append(inter["sched"])
+        else:
+            stats["hung_runs"] = stats.get("hung_runs", 0) + 1
+            digests.append(["hung", sched["mode"]])
+        if v:
+            violations = v
+            # the violating schedule becomes THE schedule of the scenario (replay file = one schedule)
+            scn["schedule"] = sched
+            scn["more_schedules"] = []
+            break
     differ = len(set(jdump(a["outcomes"]) for a in alone)) > 1
-    st = inter["stats"]
-    nontrivial = bool(st.get("switch_while_other_has_scope_pushed", 0) > 0 and differ)
-    return {"violations": violations, "nontrivial": nontrivial, "stats": st, "steps": inter["steps"],
-            "log_digest": digest([inter["outcomes"], inter["sched"]]), "states": inter["states"],
-            "sched": inter["sched"]}
+    nontrivial = bool(stats.get("switch_while_other_has_scope_pushed", 0) > 0 and differ)
+    return {"violations": violations, "nontrivial": nontrivial, "stats": stats, "steps": steps,
+            "log_digest": digest(digests), "states": states, "sched": digest(scheds) if scheds else None}
 
 
 def violation_class(v):
@@ -630,6 +737,10 @@ def shrink(scn):
                     c = copy.deepcopy(scn)
                     c["schedule"]["quantum"] = q
                     yield c
+        for i in range(len(sched.get("resolved_sites") or []) - 1, -1, -1):
+            c = copy.deepcopy(scn)
+            del c["schedule"]["resolved_sites"][i]
+            yield c
         pts = sched.get("resolved") or []
         for i in range(len(pts) - 1, -1, -1):
             c = copy.deepcopy(scn)
@@ -661,6 +772,9 @@ def shrink(scn):
             else:
                 c["schedule"]["resolved"] = [[s, (t if (t == "gc" or t < i) else t - 1)]
                                              for s, t in c["schedule"].get("resolved", []) if t != i]
+                c["schedule"]["resolved_sites"] = [[(th if th < i else th - 1), st, oc, (t if t < i else t - 1)]
+                                                   for th, st, oc, t in c["schedule"].get("resolved_sites", [])
+                                                   if th != i and t != i]
                 if c["schedule"].get("first", 0) >= len(c["actors"]):
                     c["schedule"]["first"] = 0
             yield c
